@@ -141,6 +141,18 @@ Theorem C02_fragment_targets_and_worker :
 Proof. exact (conj frag_skel_targets_order frag_worker_one_reply). Qed.
 Print Assumptions C02_fragment_targets_and_worker.
 
+Theorem C02_fragment_payloads_targets_order :
+  (skel_step_async_payload = [PayOwnAction] /\ skel_reset_payload = [PayOwnSeedOption] /\
+   skel_get_attr_payload = [PayCallArgs] /\ skel_set_attr_payload = [PayCallArgs] /\ skel_env_method_payload = [PayCallArgs] /\
+   skel_env_is_wrapped_payload = [PayCallArgs] /\ skel_has_attr_payload = [PayCallArgs]) /\
+  ((skel_get_attr_targets_ok && skel_set_attr_targets_ok && skel_env_method_targets_ok && skel_env_is_wrapped_targets_ok && skel_has_attr_targets_ok)%bool = true /\
+   (skel_step_wait_results_ordered && skel_reset_results_ordered && skel_get_attr_results_ordered && skel_set_attr_results_ordered
+    && skel_env_method_results_ordered && skel_env_is_wrapped_results_ordered && skel_has_attr_results_ordered && skel_get_images_results_ordered)%bool = true) /\
+  (worker_step_reply_ok = true /\ worker_reset_reply_ok = true) /\
+  skel_get_images = [SendEach true KRender; RecvEach true].
+Proof. exact (conj frag_skel_payloads (conj frag_skel_targets_and_order (conj frag_worker_reply_shapes frag_skel_get_images))). Qed.
+Print Assumptions C02_fragment_payloads_targets_order.
+
 Theorem C02_skeleton_programs : forall (C : Type) n targets (payload : cmdkind -> nat -> C) k,
   skel_prog n targets payload [SendEach true k; RecvEach true] = sends (seq 0 n) (payload k) ++ recvs (seq 0 n) /\
   skel_prog n targets payload (model_skel_targets k) = sends targets (payload k) ++ recvs targets.
@@ -176,4 +188,13 @@ Example ex_targets_ok : Forall (call_targets_ok 2) ex_calls /\ Forall (call_targ
 Proof. split; repeat constructor. Qed.
 Example ex_dhistory : snd (dhistory sworker_step (winit [ex_scA; ex_scB]) (calls_methods 2 [None; None] [None; None] ex_calls))
                       = snd (run_subproc_scripted [ex_scA; ex_scB] ex_calls [3; 1; 4; 1; 5; 9; 2; 6]).
+Proof. vm_compute. reflexivity. Qed.
+
+(* step_async ; get_attr ; step_wait is NOT one of the atomic calls of the property: in the protocol model (as in the real
+   SubprocVecEnv) the get_attr receive takes the step reply waiting in the pipe, which DummyVecEnv cannot reproduce *)
+Example ex_async_interleaving_mixes_replies :
+  option_map (fun sq => map (fun p => match snd p with ResStep _ _ => true | _ => false end) (s_log sq))
+    (seq_exec sworker_step (mk_sconfig [] (map (fun s => mk_sworker [] s) (map (fun w => fst (sworker_step w (CmdReset None None))) (winit [ex_scA; ex_scB]))))
+       (sends [0; 1] (fun i => CmdStep (Z.of_nat i)) ++ sends [1] (fun _ => CmdGetAttr) ++ recvs [1] ++ recvs [0; 1]))
+  = Some [true; true; false].
 Proof. vm_compute. reflexivity. Qed.
